@@ -1,0 +1,26 @@
+//go:build verif
+
+package gabikeys
+
+import "sync/atomic"
+
+// Verification hook (build tag verif only). verifHook is called by generateSafePrimePair, the
+// consumer of the safe prime workers, around every receive and at every candidate decision; the
+// installed function may block, which is how the verification harness gates the consumer to
+// establish a chosen interleaving with the workers.
+var verifHookFn atomic.Pointer[func(point string, args ...any)]
+
+func verifHook(point string, args ...any) {
+	if f := verifHookFn.Load(); f != nil {
+		(*f)(point, args...)
+	}
+}
+
+// SetVerifHook installs the hook function; nil removes it.
+func SetVerifHook(f func(point string, args ...any)) {
+	if f == nil {
+		verifHookFn.Store(nil)
+		return
+	}
+	verifHookFn.Store(&f)
+}
